@@ -211,7 +211,7 @@ func init() {
 	eng.Register(&eng.Check{
 		ID: "C07", Level: "exploration", Pre: WriteCorpusCache, HangBound: 120 * time.Second,
 		Rule: "token strings over Σ_t (len ≤ 3 quick / 4 thorough); statement sequences over the full-language alphabet (every reserved keyword × 18 value shapes and × 5 forms with children/connections below the keyword, every style keyword × 7 shapes, d2-config keys × 10 shapes, 260 structural statements: globs × filters, vars/spreads, imports, boards, classes, underscores, special shapes) of length ≤ 2 and over the structural core of length ≤ 2 (quick) / 3 (thorough); all assignments of import statements to ≤3 files (every cycle length); non-ASCII names under glob patterns; a size family (14 generators × 10^1..10^4); corpus + single-token neighbours. Each compiled with an in-memory file set by d2compiler.Compile. Non-trivial: every compile is (distinct inputs by construction); outcome classes = distinct (object/edge/board counts | error message lists)",
-		Assumptions: []string{"the time clause is decided as a hang/blow-up detector (120 s per input, sizes up to 10^4), not as a proportionality measurement", "a worker death (stack overflow / OOM) is attributed to the input in flight", "nesting depth (boards, maps, key paths) is capped at 100 (quick) / 1000 (thorough) in the size family: compile time was measured quadratic in the nesting depth, which a hang detector cannot classify soundly"},
+		Assumptions: []string{"the time clause is decided as a hang/blow-up detector (120 s per input, sizes up to 10^4), not as a proportionality measurement", "a worker death (stack overflow / OOM) is attributed to the input in flight", "nesting depth (boards, maps, key paths) is capped at 100 (quick) / 1000 (thorough; nested boards 300) in the size family: compile time was measured quadratic in the nesting depth, which a hang detector cannot classify soundly"},
 		Oracles: map[string]eng.Oracle{"compile": c07Compile, "fileset": c07FileSet, "size": c07Size},
 		Run: func(w *eng.W) {
 			for k := 1; k <= w.Pick(3, 4); k++ {
@@ -328,6 +328,9 @@ func init() {
 							n = n / w.Pick(30, 10) // measured quadratic in the nesting depth (boards: 0.5 s at 100, 52 s at 800; maps: 4 s at 1000, 27 s at 3000 on a loaded machine): kept small, see Assumptions
 							if n < 1 {
 								n = 1
+							}
+							if g == "nested-boards" && n > 300 {
+								n = 300 // 1000 nested boards need 80+ s on a loaded machine (quadratic, terminates): a wall-clock bound would call it a hang
 							}
 						}
 						if g == "edge-glob-dense" || g == "many-globs" || g == "glob-over-many" || g == "triple-glob-boards" || g == "parallel-edges" {
